@@ -7,6 +7,24 @@ _A_NOTE = ('Trusted: CrossHair 0.0.110 proxy semantics and path pruning, z3 5.1.
            'before a VIOLATION is printed.')
 
 CLAIMS = {
+    'C15': dict(
+        engine='A-crosshair',
+        technique='bounded symbolic execution of the real code (CrossHair + z3) against an independent walker and a substituted re-construction',
+        text=('For every four-node DAG over the callables {function, classes A <- B <- C} (per-node callable, '
+              'Config / Partial kind and child targets solver-enumerated; shared nodes, matching nodes nested inside '
+              'matching nodes and inside list / tuple / dict / named-tuple / list-in-dict containers), every selected '
+              'callable, match_subclasses setting and buildable_type filter: iterating select() yields exactly the '
+              'independently computed matching nodes once each; .set assigns the (unbounded symbolic) value on '
+              'exactly those nodes and leaves every other argument identical; .get yields their attribute values; '
+              '.replace (int or Config value, deepcopy on / off) makes the configuration canonically equal to the '
+              'same family member constructed with every reference to a matching node substituted (one copy per '
+              'matching node when deep-copying), keeps the root and every still-referenced non-matching Buildable '
+              'the same object, leaves nothing matching reachable, and refuses a matching root with ValueError '
+              'without modifying anything. Tag selections: for every subset of seven argument sites (positional-only '
+              'with / without default, positional-or-keyword, *args element, required / defaulted keyword-only, '
+              '**kwargs) tagged and every subset holding values, iteration yields value, else default, else '
+              'NO_VALUE, once per tagged argument of each distinct Buildable, with subclass-aware tag matching.'),
+        note=_A_NOTE),
     'C14': dict(
         engine='A-crosshair',
         technique='bounded symbolic execution of the real code (CrossHair + z3); frame-condition oracle from an independent walker',
